@@ -90,6 +90,10 @@ func (x *fnv) evalCall(s *State, call *ast.CallExpr) []Value {
 		// interface method?
 		if rs := fo.Type().(*types.Signature).Recv(); rs != nil {
 			if _, isIface := rs.Type().Underlying().(*types.Interface); isIface {
+				if recv != nil && recv.Term != nil && kindOf(recv.T) == kIface {
+					// calling a method on a nil interface value panics
+					x.safe(s, "nilrecv", c.Ne(recv.Term, c.Int(0)), call.Pos())
+				}
 				key := "(" + typeShort(rs.Type()) + ")." + fo.Name()
 				pkgPath := ""
 				if fo.Pkg() != nil {
@@ -113,6 +117,25 @@ func (x *fnv) evalCall(s *State, call *ast.CallExpr) []Value {
 	}
 	// dynamic call of a function value
 	x.safe(s, "nilfunc", c.Ne(fv.Term, c.Int(0)), call.Pos())
+	// function-typed struct field with a (trusted) field contract
+	if se, ok := fun.(*ast.SelectorExpr); ok {
+		if sel, ok := x.info.Selections[se]; ok && sel.Kind() == types.FieldVal {
+			owner := x.typeOf(se.X)
+			if pt, ok := owner.Underlying().(*types.Pointer); ok {
+				owner = pt.Elem()
+			}
+			if n, ok := owner.(*types.Named); ok && n.Obj().Pkg() != nil && len(sel.Index()) == 1 {
+				id := n.Obj().Pkg().Path() + "::field:" + n.Obj().Name() + "." + se.Sel.Name
+				if fc := x.p.Contracts.Funcs[id]; fc != nil {
+					fc.UsedBy[x.qual()] = true
+					rv := x.eval(s, se.X)
+					if fsig, ok := sel.Obj().Type().Underlying().(*types.Signature); ok {
+						return x.applyContract(s, fc, fsig, n.Obj().Pkg().Path(), n.Obj().Name()+"."+se.Sel.Name, &rv, args, sig, call.Pos())
+					}
+				}
+			}
+		}
+	}
 	x.assumeNote("function values (callbacks) are assumed not to write pre-existing framework memory")
 	if x.fc != nil && x.fc.NoPanic {
 		x.forkPanic(s, "callback "+name)
@@ -197,6 +220,7 @@ func (x *fnv) evalArgs(s *State, call *ast.CallExpr, sig *types.Signature) []Val
 
 // havocCall returns arbitrary results; the callee may allocate.
 func (x *fnv) havocCall(s *State, sig *types.Signature, hint string) []Value {
+	s.syncTops()
 	top := x.c.Fresh("top", SInt)
 	s.Assume(x.c.Ge(top, s.allocTop))
 	s.allocTop = top
@@ -228,6 +252,7 @@ func (x *fnv) applyContract(s *State, fc *FuncContract, declSig *types.Signature
 		label = fmt.Sprintf("%s.%d", label, x.nextOrd("pre."+label))
 		x.oblige(s, "pre", label, g, pos, cl)
 	}
+	s.syncTops()
 	pre := s.Clone()
 	// modifies
 	if !fc.Pure {
@@ -259,6 +284,10 @@ func (x *fnv) applyContract(s *State, fc *FuncContract, declSig *types.Signature
 	}
 	for _, cl := range fc.Ensures {
 		s.Assume(post.assumption(cl.Expr))
+	}
+	// vacuity guard: the callee's postconditions must be consistent with what is known here
+	if len(fc.Ensures) > 0 {
+		x.cover(s, fmt.Sprintf("call.%s.%d", sanitize(short), x.nextOrd("cover.call."+short)), pos)
 	}
 	return res
 }
